@@ -112,8 +112,8 @@ def replaceJudge (f : List String) (out : String) : String :=
       | some b => Casket.ReplacerSpec.verdict c.env c.fmt (.out b)
 
 /-!
-  c20.log  directives conc requests errlens wrap writer   (wrap: - | errors; writer: plain | rf | h1, Go side only)
-     ops   h<code> | w<n> | c<n> io.Copy | n<n> io.CopyN | s<n> ServeContent | f Flush
+  c20.log  directives conc requests errlens wrap writer   (wrap: - | errors | rewrite; writer: plain | rf | h1, Go side only)
+     ops   h<code> | w<n> | c<n> io.Copy | n<n> io.CopyN | s<n> ServeContent | f Flush | p<hex> r.URL.Path = … | u<hex> r.URL = new URL
      directives  ','-separated  D<hex scope>[:<hex except>]*        (one `log` directive each, in file order)
      requests    ','-separated  <hex path>:<ops>:<ret>:<0|1 panics>  ops '.'-separated h<code> | w<n>
      errlens     ','-separated  <status>=<length of the default error body>
@@ -142,14 +142,24 @@ def parseOp (s : String) : Option (List Op) :=
   else if s.startsWith "c" || s.startsWith "n" then arg.map fun n => if n = 0 then [] else [Op.write n]
   else if s.startsWith "s" then arg.map fun n => [Op.header 200, Op.write n]
   else if s = "f" then some [Op.write 0]
+  -- p<hex path>: r.URL.Path = …   u<hex path>: r.URL = &url.URL{Path: …}.  No writer operation;
+  -- the new path is kept in the outcome (see parseRequest) and the model does not read it.
+  else if s.startsWith "p" || s.startsWith "u" then (Driver.unhex (s.drop 1).toString).map fun _ => []
   else none
+
+open Casket.Log in
+/-- the path the scripted handler leaves in the request (last `p`/`u` op) -/
+def lastPath (ops : List String) : Option (List UInt8) :=
+  ops.foldl (fun acc s =>
+    if s.startsWith "p" || s.startsWith "u" then (Driver.unhex (s.drop 1).toString).orElse fun _ => acc else acc) none
 
 open Casket.Log in
 def parseRequest (s : String) : Option (Bytes × Outcome) :=
   match s.splitOn ":" with
   | [p, ops, ret, pan] => do
-    let ops ← (if ops = "" then some [] else ((ops.splitOn ".").mapM parseOp).map List.flatten)
-    pure (← Driver.unhex p, { ops := ops, ret := ← ret.toNat?, panics := pan = "1" })
+    let opl := if ops = "" then [] else ops.splitOn "."
+    let ops ← (opl.mapM parseOp).map List.flatten
+    pure (← Driver.unhex p, { ops := ops, ret := ← ret.toNat?, panics := pan = "1", newPath := lastPath opl })
   | _ => none
 
 def parseErrLens (s : String) : Option (List (Nat × Nat)) :=
@@ -170,6 +180,8 @@ def parseLog : List String → Option LogCase
     let el ← parseErrLens errlens
     let errLen := fun s => ((el.find? fun p => p.1 == s).map (·.2)).getD 0
     -- an `errors` directive between log and the handler changes what log's Next does
+    -- wrap = rewrite (the real rewrite directive changes r.URL.Path in place) needs nothing here:
+    -- the model's decision does not depend on the path the inner handlers leave behind
     let reqs := if wrap = "errors" then reqs.map fun (p, o) => (p, Casket.Log.withErrors errLen o) else reqs
     pure { ds := ds, reqs := reqs, errLen := errLen }
   | _ => none
